@@ -79,6 +79,13 @@ func finish(s *zsim.Sim, ch *zsim.Choices, summary string, post func() *zsim.Vio
 		Probes: s.Probes, Faults: s.Faults, Trace: s.Trace, Summary: summary,
 		Rec: ch.Rec, Overrun: ch.Overrun, Findings: s.Findings,
 	}
+	// the case hash covers every answer of the choice stream (workload,
+	// configuration, faults) and every scheduling decision
+	h := s.Hash()
+	for _, v := range ch.Rec {
+		h = (h ^ uint64(v)) * 0x100000001b3
+	}
+	r.Hash = h
 	if r.Viol == nil && post != nil {
 		r.Viol = post()
 	}
